@@ -39,7 +39,7 @@ ASSUMPTIONS = ["GooFit itself is not installed: the Python output runs against a
                "SF_4Body.*, Amplitude, every M_ab / M_ab_c) is taken from the stored reference output",
                "the shipped model does not define the K-matrix parameter sA0 (symbol sA_0): that one symbol is exempt from def-before-use for the shipped file, by name"]
 
-TS = re.compile(r"^Generated on .*$", re.M)
+TS = re.compile(r"^(\W*)Generated on .*$", re.M)
 
 
 def strip_ts(s):
